@@ -104,6 +104,11 @@ def evaluate(args):
         if 'why' in what:
             if (scen.get('why') == 'overlap') != (err_class(obs.get('msg')) == 'overlap'):
                 mism.append(f'rejection reason: specification {scen.get("why")} implementation {(obs.get("msg") or "")[:120]}')
+    if not mism and params.get('also_no_binary') and 'status' in what and obs['status'] != 'timeout':
+        # the same program with no image and no listing requested (-n): what is written does not decide what is accepted
+        obs2 = runner.run_case(dict(case, binary=False, pretty=None))
+        if (obs2['status'] == 'ok') != (exp_status == 'ok'):
+            mism.append(f'with no binary and no listing requested: specification {exp_status} ({scen.get("why")}), implementation {obs2["status"]} ({(obs2.get("msg") or "")[:120]})')
     if not mism:
         return None
     return {'mismatch': mism, 'case': case, 'scenario': scen['prog'],
